@@ -50,10 +50,21 @@ def sessions():
         for ap in (0, 3):
             for ibgp in (False, True):
                 out.append({'asn4': asn4, 'addpath': ap, 'ibgp': ibgp, 'aigp': False, 'name': f'{"asn4" if asn4 else "as2"}/{"ap" if ap else "noap"}/{"ibgp" if ibgp else "ebgp"}'})
+    # ADD-PATH negotiated one way only: we receive and the peer sends (path identifiers in what arrives), we send and the peer
+    # receives (none in what arrives)
+    for ap, tag in ((1, 'ap-recv-only'), (2, 'ap-send-only')):
+        out.append({'asn4': True, 'addpath': ap, 'ibgp': False, 'aigp': False, 'name': f'asn4/{tag}/ebgp'})
     # the same with the AIGP session option (capability { aigp enable; }): the attribute is accepted there only
     for asn4, ap, ibgp in ((True, 0, True), (False, 0, False), (True, 3, False)):
         out.append({'asn4': asn4, 'addpath': ap, 'ibgp': ibgp, 'aigp': True, 'name': f'{"asn4" if asn4 else "as2"}/{"ap" if ap else "noap"}/{"ibgp" if ibgp else "ebgp"}/aigp'})
     return out
+
+
+def expected_recv_addpath(sk) -> set:
+    """RFC 7911: a path identifier precedes the NLRI we receive when WE advertised receive and THE PEER advertised send.  The
+    peer mirrors our capability (our receive is its send): configured receive (1) or send/receive (3) for the six families.
+    Computed from the configuration, not read from ExaBGP's own negotiation"""
+    return set(FAMS) if sk['addpath'] in (1, 3) else set()
 
 
 def build_session(sk):
@@ -188,7 +199,7 @@ def run_daemon(desc):
     kinds = sessions()
     sk = kinds[(desc['part'] + desc['seed']) % len(kinds)]
     nb, neg = build_session(sk)
-    recv_ap = {(int(a), int(s)) for (a, s), v in neg.addpath._receive.items() if v}
+    recv_ap = expected_recv_addpath(sk)
     s = {'asn4': sk['asn4'], 'addpath': recv_ap, 'ibgp': sk['ibgp'], 'enh': bool(neg.nexthop)}
     las, pas = 65000, (65000 if sk['ibgp'] else 65001)
     extra = 'api { processes [ sink ]; receive { parsed; update; } }'
@@ -275,7 +286,7 @@ def run_shard(desc):
         if sk['name'] not in built:
             built[sk['name']] = build_session(sk)
         nb, neg = built[sk['name']]
-        recv_ap = {(int(a), int(s)) for (a, s), v in neg.addpath._receive.items() if v}
+        recv_ap = expected_recv_addpath(sk)
         s = {'asn4': sk['asn4'], 'addpath': recv_ap, 'ibgp': sk['ibgp'], 'enh': bool(neg.nexthop)}
         if bool(neg.asn4) != sk['asn4']:
             res.inconclusive.append(f'session {sk["name"]}: negotiated asn4={neg.asn4}')
@@ -333,7 +344,7 @@ def run_shard(desc):
         if sk['name'] not in built:
             built[sk['name']] = build_session(sk)
         nb, neg = built[sk['name']]
-        recv_ap = {(int(a), int(s)) for (a, s), v in neg.addpath._receive.items() if v}
+        recv_ap = expected_recv_addpath(sk)
         s = {'asn4': sk['asn4'], 'addpath': recv_ap, 'ibgp': sk['ibgp']}
         for seq in range(2 if desc['tier'] == 'quick' else 12):
             nb.rib.incoming.clear()
